@@ -1,5 +1,6 @@
 """Instrumentation applied from the harness (DESIGN 2.2). Nothing here edits
 /repo: monitors are attached to the loaded modules of the working tree."""
+from .terms import is_bound
 import os
 import sys
 import weakref
@@ -128,15 +129,15 @@ class VarRegistry:
 
     def bound(self):
         """list of live registered variables that are currently bound"""
-        return [v for v in list(self.live) if v._is_bound]
+        return [v for v in list(self.live) if is_bound(v)]
 
     def state(self):
-        return {id(v): bool(v._is_bound) for v in list(self.live)}
+        return {id(v): is_bound(v) for v in list(self.live)}
 
     def gc_scan_bound(self):
         """cross-check: every Variable the garbage collector knows"""
         V = self.E.Variable
-        return [o for o in gc.get_objects() if type(o) is V and o._is_bound]
+        return [o for o in gc.get_objects() if type(o) is V and is_bound(o)]
 
 
 # ------------------------------------------------------------ unraisable hook
